@@ -538,4 +538,49 @@ func hTLS(out *Out) {
 		}
 		p.stop()
 	}
+	// ... and on the REPLICATION listener of a real leader process - the endpoint the follower clusters
+	// authenticate to with client certificates (replication.ca-filename, replication.client-cert-auth,
+	// replication.allowed-cn reaching security.TLSInfo in cmd/leader.go createReplicationServer)
+	// (replication.allowed-cn / allowed-hostname are read by the code but have no command-line flag)
+	for _, o := range []opt{{true, true, "", ""}, {true, false, "", ""}} {
+		args := []string{"--replication.cert-filename=" + cf, "--replication.key-filename=" + kf, "--replication.ca-filename=" + caFile}
+		if o.cca {
+			args = append(args, "--replication.client-cert-auth=true")
+		}
+		if o.cn != "" {
+			args = append(args, "--replication.allowed-cn="+o.cn)
+		}
+		p := startProcSchemes("http", "https", "leader", args...)
+		if !p.waitReady(nil) {
+			out.Line(fmt.Sprintf("tlsproc-repl %s %s", b2i(o.cca), dash(o.cn)), "err not-ready "+strings.ReplaceAll(p.logTail(), "\n", " | "))
+			p.stop()
+			continue
+		}
+		pool := x509.NewCertPool()
+		pool.AppendCertsFromPEM(ca1.pem)
+		for _, c := range clients {
+			desc := "none"
+			if c.cert != nil {
+				desc = fmt.Sprintf("cert %s %s 0", b2i(c.chains), hx([]byte(c.cert.Leaf.Subject.CommonName)))
+			}
+			cc := &tls.Config{RootCAs: pool, ServerName: "127.0.0.1"}
+			if c.cert != nil {
+				cc.Certificates = []tls.Certificate{*c.cert}
+			}
+			ans := "accept"
+			conn, err := grpc.NewClient(fmt.Sprintf("127.0.0.1:%d", p.repl), grpc.WithTransportCredentials(credentials.NewTLS(cc)))
+			if err == nil {
+				ctx, cancel := context.WithTimeout(context.Background(), 5*time.Second)
+				_, err = regattapb.NewMetadataClient(conn).Get(ctx, &regattapb.MetadataRequest{})
+				cancel()
+				conn.Close()
+			}
+			if err != nil {
+				ans = "reject"
+			}
+			out.Line(fmt.Sprintf("tls %s %s %s %s %s", b2i(o.ca), b2i(o.cca), dash(o.cn), dash(o.host), desc), ans)
+			out.Count("tls_process_replication")
+		}
+		p.stop()
+	}
 }
